@@ -75,7 +75,9 @@ func c04NewServer(cfg c04Config) *mcp.Server {
 	// whoami: the id of the session the request is served in
 	srv.RegisterTool(mcp.NewTool("whoami"), func(ctx context.Context, req *mcp.CallToolRequest) (*mcp.CallToolResult, error) {
 		id := "none"
-		if sess, ok := mcp.GetSessionFromContext(ctx); ok && sess != nil {
+		if sess := mcp.ClientSessionFromContext(ctx); sess != nil {
+			id = sess.GetID() // the session the dispatcher serves the request in
+		} else if sess, ok := mcp.GetSessionFromContext(ctx); ok && sess != nil {
 			id = sess.GetID()
 		}
 		return mcp.NewTextResult("served-in:" + id + ";"), nil
